@@ -377,6 +377,12 @@ CLI_CASES = [
     ("ode2c", ["--format", "none"], "h", {}),
     ("ode2c", ["--format", "none", "--to", ".c", "--scheme", "explicit_euler", "--remove-unused"], "c",
      {"schemes": ["explicit_euler"], "remove_unused": True}),
+    # a scheme together with its alias spelling: every requested name must be defined exactly once
+    ("ode2py", ["--format", "none", "--scheme", "explicit_euler", "--scheme", "forward_explicit_euler"], "py",
+     {"schemes": ["explicit_euler", "forward_explicit_euler"]}),
+    ("ode2c", ["--format", "none", "--scheme", "forward_generalized_rush_larsen", "--scheme", "explicit_euler",
+               "--scheme", "generalized_rush_larsen"], "h",
+     {"schemes": ["forward_generalized_rush_larsen", "explicit_euler", "generalized_rush_larsen"]}),
 ]
 
 
@@ -384,7 +390,7 @@ def tasks(tier, seed):
     out = []
     for name in CONDS:
         out.append({"family": "XH", "id": name, "text": "", "opts": {"cond": name, "timeout": 120 if tier == "quick" else 600}})
-    for i, case in enumerate(CLI_CASES if tier != "quick" else CLI_CASES[:6]):
+    for i, case in enumerate(CLI_CASES):
         out.append({"family": "CLI", "id": f"cli{i}", "text": MODEL, "opts": {"case": i}})
     for k in BAD_MODELS:
         out.append({"family": "CLIBAD", "id": k, "text": BAD_MODELS[k], "opts": {"bad": k}})
@@ -432,6 +438,11 @@ def work(task):
                 got = open(outp).read()
                 prog.fact(f"cli|{cmd}|{' '.join(args)}|bytes", got == want, "CliBytesDiffer",
                           f"file written by '{cmd} {' '.join(args)}' differs from the API's get_code for the same options")
+                import re
+                for sch in kw.get("schemes") or []:
+                    n = len(re.findall(r"^(?:def|void)\s+%s\s*\(" % re.escape(sch), got, flags=re.M))
+                    prog.fact(f"cli|{cmd}|{' '.join(args)}|defines|{sch}", n == 1, "SchemeListNotHonoured",
+                              f"'{cmd} {' '.join(args)}': the written file defines the requested scheme {sch} {n} times")
             prog.nontrivial = True
             if len(prog.samples) < 2:
                 prog.samples.append({"command": [cmd] + args, "exit": p.returncode})
